@@ -97,8 +97,37 @@ class G:
 # tables
 
 
+def gen_block_table(g: G):
+    """A table in BLOCK form (complete blocks, rows shuffled): record key `id`, one key column `s` holding the labels,
+    one value column. The labels are column names of the value type, so the pivot (blocks -> row records) of this table
+    is again a well-typed table. tbl["blocks"] tells step_convert_records how to pivot it."""
+    vt = g.pick(["float", "int"])  # the str pool is too small for a value column plus two labels
+    vname = g.pick([n for n in S.POOLS[vt] if n not in ("id", "s", "g")])
+    labels = g.subset([n for n in S.POOLS[vt] if n not in ("id", "s", "g", vname)], lo=2, hi=3)
+    nrec = g.pick([0, 1, 2, 3, 4])
+    extra = g.boolean(0.4)  # a second record key column
+    cols = [["id", "int", False]] + ([["g", "str", False]] if extra else []) + [["s", "str", False], [vname, vt, vt != "int"]]
+    rows = []
+    for rid in range(1, nrec + 1):
+        gk = g.pick(KEY_STR_VALS) if extra else None
+        for lab in labels:
+            if vt == "int":
+                v = g.pick(INT_VALS)
+            elif vt == "float":
+                v = None if g.boolean(0.15) else g.pick(FLOAT_VALS)
+            else:
+                v = None if g.boolean(0.15) else g.pick(STR_VALS)
+            rows.append([rid] + ([gk] if extra else []) + [lab, v])
+    if rows:
+        rows = list(g.draw(st.permutations(rows)))
+    rk = ["id"] + (["g"] if extra else [])
+    return {"cols": cols, "rows": rows, "keys": [["id", "s"]], "blocks": {"record_keys": rk, "key_col": "s", "val_col": vname, "labels": labels}}
+
+
 def gen_table(g: G, name: str, force_cols: Optional[List[str]] = None):
     cfg = g.cfg
+    if cfg.get("block_table_prob") and not force_cols and g.boolean(cfg["block_table_prob"]):
+        return gen_block_table(g)
     with_id = g.boolean(0.85)
     pool = [n for n in S.NAME_TYPE if n != "id"]
     ncols = g.int(2, 5)
@@ -736,9 +765,14 @@ def step_concat(g: G, schemas: Dict[int, Sch], a: int, b: int):
     return nd
 
 
-def step_convert_records(g: G, sch: Sch):
-    """An unpivot (row records -> blocks) of 2-3 same-typed value columns, or a pivot back of a table
-    that looks like blocks. Record keys are all remaining columns (must hold a key for pivot)."""
+def step_convert_records(g: G, sch: Sch, blocks=None):
+    """An unpivot (row records -> blocks) of 2-3 same-typed value columns, or — when the source is a block-form table
+    (`blocks` = its description, see gen_block_table) — the pivot of that table into row records."""
+    if blocks is not None and g.boolean(0.8):
+        kc, vc = blocks["key_col"], blocks["val_col"]
+        ct = {"cols": [kc, vc], "rows": [[lab, lab] for lab in blocks["labels"]]}
+        rm = {"blocks_in": {"control_table": ct, "record_keys": list(blocks["record_keys"]), "control_table_keys": [kc]}, "blocks_out": None, "strict": True}
+        return {"op": "convert_records", "record_map": rm}
     kind = g.pick(["unpivot", "unpivot", "pivot"])
     if kind == "unpivot":
         for t in g.draw(st.permutations(["float", "int", "str"])):
@@ -845,7 +879,12 @@ class Builder:
             if nd is not None:
                 nd["src"] = cur
         else:
-            nd = UNARY_STEPS[kind](g, schemas[cur])
+            if kind == "convert_records":
+                src_nd = case["nodes"][cur]
+                blocks = case["tables"][src_nd["name"]].get("blocks") if src_nd["op"] == "table" else None
+                nd = step_convert_records(g, schemas[cur], blocks=blocks)
+            else:
+                nd = UNARY_STEPS[kind](g, schemas[cur])
             if nd is not None:
                 nd["src"] = cur
         if nd is None:
@@ -981,6 +1020,11 @@ def draw_program(draw, cfg=None):
     cfg = dict(cfg or {})
     g = G(draw, cfg)
     b = Builder(g, cfg)
+    if b.case["tables"][b.tnames[0]].get("blocks") and g.boolean(0.75):
+        # a block-form input table is (mostly) pivoted first: blocks -> row records on shuffled, possibly incomplete-looking input
+        nxt = b.step(b.heads[0], "convert_records")
+        if nxt is not None:
+            b.heads[0] = nxt
     max_nodes = cfg.get("max_nodes", 7)
     lo_steps = cfg.get("min_steps", 1)
     nsteps = g.pick([n for n in (1, 2, 2, 3, 3, 4, 4, 5, 5, 6, 7, 8) if lo_steps <= n <= max_nodes] or [lo_steps])
